@@ -16,6 +16,18 @@ use serde_json::{json, Value};
 pub fn judge_2d(ctx: &mut Ctx, m: &MSym, variant: &str) {
     let input = || json!({"symbol": m.to_text(), "variant": variant, "dimension": 2});
     ctx.eval();
+    // calls a user may well make on the same thread just before: the cover lists of the symbol and of its
+    // oriented cover up to a small sheet bound. They must not change what toroidal_cover finds afterwards.
+    let pre = digest(m) % 4;
+    if pre > 0 {
+        let ds = to_partial_dsym(m);
+        let _ = observe(|| {
+            let a = rust_dsymbols::covers::covers(&ds, pre as usize).len();
+            let b = rust_dsymbols::covers::covers(&rust_dsymbols::derived::oriented_cover(&ds), pre as usize).len();
+            a + b
+        });
+        ctx.count("toroidal_cover_after_cover_lists_with_a_small_sheet_bound");
+    }
     let r = observe(|| from_dsym(&toroidal_cover(&to_partial_dsym(m))));
     let c = match ctx.no_panic("delaney2d::toroidal_cover", input, r) {
         Some(c) => c,
@@ -148,6 +160,16 @@ pub fn judge_3d(ctx: &mut Ctx, cfg: &Cfg, m: &MSym, rng: &mut Rng, must_find: bo
 
 pub fn run(cfg: &Cfg) -> Report {
     let mut report = Report::new(cfg);
+    // out-of-domain calls between judged cases: toroidal_cover of a spherical symbol, pseudo_toroidal_cover of a 2D one
+    crate::monitor::set_poison(|k| {
+        if let Ok(ds) = "<1.1:1:1,1,1:3,3>".parse::<rust_dsymbols::dsyms::PartialDSym>() {
+            if k % 2 == 0 {
+                let _ = toroidal_cover(&ds);
+            } else {
+                let _ = pseudo_toroidal_cover(&ds);
+            }
+        }
+    });
     let seed = cfg.seed;
     // 2D: all euclidean symbols (v up to 6) on connected sets up to the bound, with renumberings and duals
     let mut eu: Vec<MSym> = vec![];
